@@ -216,7 +216,8 @@ type SMOptions struct {
 	SlowLookup   time.Duration // legitimately slow user code
 	SlowSave     time.Duration
 	SlowUpdate   time.Duration
-	RaceCanary   bool // keep the deliberately unsynchronised field (race detector oracle)
+	SlowPrepare  time.Duration // PrepareSnapshot dwells after fixing its view
+	RaceCanary   bool          // keep the deliberately unsynchronised field (race detector oracle)
 	RecordApply  bool
 	OpenFailStop bool
 }
@@ -493,6 +494,14 @@ func (s *SMInst) Snapshot() map[byte][]uint64 {
 	return s.data.clone().Lists
 }
 
+// AppliedAndLists returns, atomically, the index of the last user entry the
+// state machine holds and a copy of its lists.
+func (s *SMInst) AppliedAndLists() (uint64, map[byte][]uint64) {
+	s.dmu.RLock()
+	defer s.dmu.RUnlock()
+	return s.data.Applied, s.data.clone().Lists
+}
+
 // DataHash returns the hash of the current data.
 func (s *SMInst) DataHash() uint64 {
 	s.dmu.RLock()
@@ -661,8 +670,12 @@ func (c *concurrentSM) PrepareSnapshot() (interface{}, error) {
 	c.s.enterExcl("PrepareSnapshot")
 	defer c.s.exitExcl("PrepareSnapshot")
 	c.s.dmu.RLock()
-	defer c.s.dmu.RUnlock()
-	return c.s.data.clone(), nil
+	d := c.s.data.clone()
+	c.s.dmu.RUnlock()
+	if c.s.opt.SlowPrepare > 0 {
+		time.Sleep(c.s.opt.SlowPrepare)
+	}
+	return d, nil
 }
 func (c *concurrentSM) SaveSnapshot(ctx interface{}, w io.Writer, _ sm.ISnapshotFileCollection, stopc <-chan struct{}) error {
 	c.s.enterShared("SaveSnapshot")
@@ -717,8 +730,12 @@ func (o *onDiskSM) PrepareSnapshot() (interface{}, error) {
 	o.s.enterExcl("PrepareSnapshot")
 	defer o.s.exitExcl("PrepareSnapshot")
 	o.s.dmu.RLock()
-	defer o.s.dmu.RUnlock()
-	return o.s.data.clone(), nil
+	d := o.s.data.clone()
+	o.s.dmu.RUnlock()
+	if o.s.opt.SlowPrepare > 0 {
+		time.Sleep(o.s.opt.SlowPrepare)
+	}
+	return d, nil
 }
 func (o *onDiskSM) SaveSnapshot(ctx interface{}, w io.Writer, stopc <-chan struct{}) error {
 	o.s.enterShared("SaveSnapshot")
